@@ -51,6 +51,26 @@ Theorem C08_clash_one_survivor : forall l i j a b oa ob,
 Proof. exact clash_pair_discarded. Qed.
 Print Assumptions C08_clash_one_survivor.
 
+(* the clash clause as a whole: no two returned atoms (one model, occupancies known) are within the clash distance ... *)
+From RV Require Import Proofs.C08Clash.
+Theorem C08_survivors_apart : forall atoms out p q x y ox oy,
+    filter_clashing atoms = Ok out ->
+    nth_error out p = Some x -> nth_error out q = Some y -> p < q ->
+    (negb clash_filter_per_model || (a1_model x =? a1_model y)%Z) = true ->
+    a1_occ x = Some ox -> a1_occ y = Some oy -> close x y = false.
+Proof. exact survivors_apart. Qed.
+Print Assumptions C08_survivors_apart.
+
+(* ... and an atom is dropped by the clash filter only for a reason: another atom within the clash distance, of the same model,
+   whose occupancy is at least as high *)
+Theorem C08_discarded_reason : forall l k, In k (discarded l) ->
+    exists m a b oa ob, k <> m /\ nth_error l k = Some a /\ nth_error l m = Some b /\
+      (close a b = true \/ close b a = true) /\
+      (negb clash_filter_per_model || (a1_model a =? a1_model b)%Z) = true /\
+      a1_occ a = Some oa /\ a1_occ b = Some ob /\ (oa <= ob)%Z.
+Proof. exact discarded_reason. Qed.
+Print Assumptions C08_discarded_reason.
+
 (* grouping into residues keeps file order and loses nothing *)
 Theorem C08_grouping_file_order : forall atoms, concat (group atoms) = atoms.
 Proof. exact group_concat. Qed.
